@@ -79,9 +79,18 @@ def synth_contexts(rng, n):
     src = {s: np.array([rng.choice([1.5, 2.0, 7.25, np.nan, -3.0]) for _ in rows]) for s in streams}
     ax = {a: np.array([float(rng.randint(0, 50)) for _ in rows]) for a in axes}
     ctxs = []
+    empties = rng.random() < 0.35
     for m in masks:
         mm = np.array(m, dtype=bool)
         for s in streams:
+            if empties and rng.random() < 0.5:
+                # a context whose tests all dropped out (what a stream yields when a test cannot run): it carries data of
+                # its own but no result, and must not leave a trace in anybody's collected columns
+                ctxs.append(ContextResult(
+                    stream_id=s + "_norun", results=[], subset_indexes=mm.copy(),
+                    data=np.full(int(mm.sum()), -77.5), tinp=t_all[mm] + np.timedelta64(1, "s"),
+                    zinp=np.full(int(mm.sum()), -78.5), lat=np.full(int(mm.sum()), -79.5), lon=np.full(int(mm.sum()), -80.5),
+                ))
             for (pkg, tst) in tests:
                 flags = np.ma.array([rng.choice([1, 1, 2, 3, 4, 9]) for _ in range(int(mm.sum()))], dtype="uint8")
                 ctxs.append(ContextResult(
@@ -185,7 +194,7 @@ def run(out: Outcome, drv):
     n_syn = 300 if out.tier == "quick" else 6000
     n_str = 40 if out.tier == "quick" else 800
     out.rule = ("(a) synthetic ContextResult sequences (0..9 rows; 1..4 disjoint windows incl. empty, all-covering, gapped and interleaved; "
-                "1..2 streams x 1..3 tests; with / without depth and position arrays; writable and read-only input arrays) collected in "
+                "1..2 streams x 1..3 tests, optionally interleaved with contexts that carry data but no test result; with / without depth and position arrays; writable and read-only input arrays) collected in "
                 "list and dict form, in the generated order and in permuted orders (all permutations for <= 4 context results, 6 random "
                 "otherwise), every third sequence collected a second time after the arrays of the first collect were overwritten in place; "
                 "(b) the same for sequences yielded by real PandasStream / NumpyStream / XarrayStream runs; judged by "
